@@ -90,54 +90,56 @@ func checkDefs() map[string]CheckDef {
 		"buffers beyond the windows; flags changing between calls; SIPMsgNoMoreDataF (documented end-of-input mode); > 65535 bytes")
 
 	add("C02",
-		cat(each("H_resume", idsLoop, l(0), l(9), l(-1)),
-			each("H_resume", idsNameAddr, l(0), l(7), l(-1)),
-			each("H_resume", idsHdrLine, l(0), l(7), l(-1)),
-			each("H_resume", idsHeaders, l(0), l(6), l(-1)),
-			each("H_resume", idsLists, l(0), l(6), l(-1)),
-			each("H_resume", idsTok, l(0), l(7), l(-1)),
-			each("H_resume", idsURILists, l(0), l(6), l(-1)),
+		cat(each("H_resume", idsLoop, l(0), l(10), l(-1)),
+			each("H_resume", idsNameAddr, l(0), l(8), l(-1)),
+			each("H_resume", idsHdrLine, l(0), l(8), l(-1)),
+			each("H_resume", idsHeaders, l(0), l(7), l(-1)),
+			each("H_resume", idsLists, l(0), l(7), l(-1)),
+			each("H_resume", idsTok, l(0), l(8), l(-1)),
+			each("H_resume", idsURILists, l(0), l(7), l(-1)),
+			each("H_resume", l(6, 8, 9, 16, 19), l(58, 59, 60, 61, 62), l(3), l(-1)),
 			each("H_resume", l(5), l(23, 24, 25), l(5), l(-1)),
 			each("H_resume", l(5), l(26, 27, 57), l(4), l(-1)),
 			each("H_resume_at", l(0, 2, 6, 11, 23, 30), l(6), l(1, 2)),
 			each("H_chain", l(0, 1, 2, 6, 8, 11, 23, 30, 34), l(0), l(5)),
 			each("H_resume", l(8, 16, 19), l(18, 19), l(4), l(-1)),
 			each("H_resume", l(12, 14), l(40, 41, 42, 43), l(2), l(-1))),
-		cat(each("H_resume", idsLoop, l(0), l(12), l(-1)),
-			each("H_resume", idsNameAddr, l(0), l(9), l(-1)),
-			each("H_resume", idsHdrLine, l(0), l(9), l(-1)),
-			each("H_resume", idsHeaders, l(0), l(8), l(-1)),
-			each("H_resume", idsLists, l(0), l(8), l(-1)),
-			each("H_resume", idsTok, l(0), l(9), l(-1)),
-			each("H_resume", idsURILists, l(0), l(8), l(-1)),
+		cat(each("H_resume", idsLoop, l(0), l(13), l(-1)),
+			each("H_resume", idsNameAddr, l(0), l(10), l(-1)),
+			each("H_resume", idsHdrLine, l(0), l(10), l(-1)),
+			each("H_resume", idsHeaders, l(0), l(9), l(-1)),
+			each("H_resume", idsLists, l(0), l(9), l(-1)),
+			each("H_resume", idsTok, l(0), l(10), l(-1)),
+			each("H_resume", idsURILists, l(0), l(9), l(-1)),
 			each("H_resume", l(5), l(0), l(15), l(-1)),
 			each("H_chain", l(0, 1, 2, 6, 8, 11, 13, 16, 23, 30, 34), l(0), l(7))),
-		"every exported incremental sub-parser: resumption lemma with every cut position on fully symbolic buffers: CSeq/Call-ID/UInt/CLen/Expires/SkipQuoted 9 (12) bytes, name-addr (From, To, Contact, PAI, Route, one-contact, one-PAI) 7 (9), header line 7 (9), header block caps {2,1,0} 6 (8), contact/PAI lists 6 (8), token param (6 flag sets) 7 (9), URI param/header lists caps {2,1,0} 6 (8), first line on templates; start offsets 1 and 2; all-schedules chain at 5 (7) bytes",
+		"every exported incremental sub-parser: resumption lemma with every cut position on fully symbolic buffers: CSeq/Call-ID/UInt/CLen/Expires/SkipQuoted 10 (13) bytes, name-addr (From, To, Contact, PAI, Route, one-contact, one-PAI) 8 (10), header line 8 (10), header block caps {2,1,0} 7 (9), contact/PAI lists 7 (9), token param (6 flag sets) 8 (10), URI param/header lists caps {2,1,0} 7 (9), name-addr interior templates, first line on templates; start offsets 1 and 2; all-schedules chain at 5 (7) bytes",
 		"POptInputEndF (documented end-of-input mode) is exercised separately in C17; longer inputs")
 
 	add("C03",
-		cat(each("H_premature", idsLoop, l(0), l(9)),
-			each("H_premature", idsNameAddr, l(0), l(8)),
-			each("H_premature", idsHdrLine, l(0), l(8)),
-			each("H_premature", idsHeaders, l(0), l(7)),
-			each("H_premature", idsLists, l(0), l(7)),
-			each("H_premature", idsTok, l(0), l(8)),
-			each("H_premature", idsURILists, l(0), l(7)),
+		cat(each("H_premature", idsLoop, l(0), l(11)),
+			each("H_premature", idsNameAddr, l(0), l(9)),
+			each("H_premature", idsHdrLine, l(0), l(9)),
+			each("H_premature", idsHeaders, l(0), l(8)),
+			each("H_premature", idsLists, l(0), l(8)),
+			each("H_premature", idsTok, l(0), l(9)),
+			each("H_premature", idsURILists, l(0), l(8)),
+			each("H_premature", l(6, 8, 9, 16, 19), l(58, 59, 60, 61, 62), l(4)),
 			each("H_premature", l(5), l(23, 24, 25, 26), l(5)),
 			each("H_premature", l(5), l(0), l(15)),
 			each("H_premature", l(41, 42, 43), tplMsgHdr, l(4)),
 			each("H_premature", l(41, 43), l(13), l(7)),
 			each("H_premature", l(41), tplBoundary, l(4)),
 			each("H_premature", l(41), l(37, 38, 39), l(2)), each("H_premature", l(41), tplInterior, l(4)), each("H_premature", l(12), l(40, 41, 42, 43), l(2))),
-		cat(each("H_premature", idsLoop, l(0), l(13)),
-			each("H_premature", idsNameAddr, l(0), l(10)),
-			each("H_premature", idsHdrLine, l(0), l(10)),
-			each("H_premature", idsHeaders, l(0), l(9)),
-			each("H_premature", idsLists, l(0), l(9)),
-			each("H_premature", idsTok, l(0), l(10)),
-			each("H_premature", idsURILists, l(0), l(9)),
+		cat(each("H_premature", idsLoop, l(0), l(14)),
+			each("H_premature", idsNameAddr, l(0), l(11)),
+			each("H_premature", idsHdrLine, l(0), l(11)),
+			each("H_premature", idsHeaders, l(0), l(10)),
+			each("H_premature", idsLists, l(0), l(10)),
+			each("H_premature", idsTok, l(0), l(11)),
+			each("H_premature", idsURILists, l(0), l(10)),
 			each("H_premature", l(41, 42, 43), tplMsgHdr, l(6))),
-		"every streaming parser: a definitive verdict on the first n-1 bytes vs. the verdict on n bytes (one-byte extension; any suffix follows by induction inside the bound); fully symbolic n = 7-9 (9-13) bytes, message parser with flags skip-body / clen-required on header templates",
+		"every streaming parser: a definitive verdict on the first n-1 bytes vs. the verdict on n bytes (one-byte extension; any suffix follows by induction inside the bound); fully symbolic n = 8-11 (10-14) bytes, message parser with flags skip-body / clen-required on header templates",
 		"message parser without Content-Length and without skip-body/clen-required (documented exemption: the body is the rest of the buffer); SIPMsgNoMoreDataF, POptInputEndF")
 
 	add("C04",
@@ -214,6 +216,7 @@ func checkDefs() map[string]CheckDef {
 
 	add("C11",
 		cat(each("H_offset", l(0, 1, 2, 3, 6, 8, 11, 12, 13, 16, 19, 22, 23, 25, 30, 34), l(0), l(5), l(1, 3, 255, 256, 65530)),
+			each("H_offset", l(6, 12, 13, 16, 23, 30), l(0), l(4), l(2, 7, 8, 15, 16, 31, 32, 63, 64, 127, 128, 511, 512, 1023, 1024, 4095, 4096, 32767, 32768, 65531)),
 			each("H_offset", l(5), l(24, 25), l(4), l(1, 256, 65500)),
 			each("H_offset", l(5), l(0), l(8, 10, 13, 14), l(1, 5, 14, 300)),
 			each("H_offset", l(40, 43), l(0), l(9, 12), l(2, 14, 256)),
